@@ -86,6 +86,7 @@ type Out struct {
 	Acquisitions  []AcqSite           `json:"acquisitions"` // C10: Lock/RLock sites with the may-held sets (acquire.go)
 	AcqNotes      []string            `json:"acq_notes"`
 	PosCost       *PosCost            `json:"position_conversion"` // C20: the tokenizer's position conversion, found by role (poscost.go)
+	LockExits     []LockExit          `json:"lock_exits"` // C10: what each entry point may still hold when it returns (acquire.go)
 }
 
 func main() {
